@@ -7,6 +7,7 @@ import lib  # noqa
 import cases as C  # noqa
 import corr  # noqa
 import efcommon as E  # noqa
+from lib import f32  # noqa
 
 MODULES = ["InovesaModel.Props.C18", "InovesaModel.Props.TieEF"]
 LEVEL = "proof"
@@ -18,6 +19,9 @@ def gen(rng, count, sizes, maxlen):
         n = rng.choice(sizes)
         nb, spacing, buckets, nmax = E.layout(rng, n)
         z = E.impedance(rng, nmax, passive=rng.random() < 0.7)
+        if k % 3 == 1:
+            # a table filled over its whole length: nothing an operation leaves above the Nyquist index may reach another one
+            z = [(zz if i <= nmax // 2 else (f32(rng.uniform(0.1, 2)), f32(rng.uniform(-1, 1)))) for i, zz in enumerate(z)]
         nps = rng.randint(2, 4)
         profs = [E.profile(rng, n, nb) for _ in range(nps)]
         seq = []
